@@ -120,6 +120,7 @@ def main(modname):
     known_hits = []
     canaries = {}
     nrep = 0
+    pending_cex = []
     for r in results:
         job = r["job"]
         name = job["name"]
@@ -146,17 +147,33 @@ def main(modname):
             problems.append(f"{name}: reachability twin failed (assumptions unsatisfiable or assertion not reached)")
         if r["status"] == "cex":
             for case in r["cex"]:
-                nrep += 1
-                path = os.path.join(ROOT, "replays", f"{pid}_{nrep}.json")
-                rr = replay_case(modname, case, path)
-                if not rr.get("confirmed"):
-                    problems.append(f"{name}: solver counterexample did not reproduce on the unpatched code: {str(rr)[:600]}")
-                    continue
-                key = case.get("finding_key")
+                pending_cex.append((name, case))
+
+    # Replay candidates on the unpatched code: per finding key, until one reproduces (at most 4 attempts);
+    # further candidates with an already confirmed key are counted, not replayed.
+    by_key = {}
+    for name, case in pending_cex:
+        by_key.setdefault(case.get("finding_key"), []).append((name, case))
+    unreplayed = 0
+    for key, lst in by_key.items():
+        confirmed = False
+        notes = []
+        for name, case in lst[:4]:
+            nrep += 1
+            path = os.path.join(ROOT, "replays", f"{pid}_{nrep}.json")
+            rr = replay_case(modname, case, path)
+            if rr.get("confirmed"):
+                confirmed = True
                 if key in known_keys:
                     known_hits.append((key, known_keys[key], rr))
                 else:
                     violations.append((path, case, rr))
+                break
+            notes.append(f"{name}: {str(rr)[:400]}")
+        if confirmed:
+            unreplayed += len(lst) - 1
+        else:
+            problems.append(f"solver counterexample(s) for {key} did not reproduce on the unpatched code: " + " | ".join(notes))
 
     # canaries that were required to bite
     for cname, ent in canaries.items():
@@ -169,8 +186,10 @@ def main(modname):
                "violations": len(violations)})
     ev.setdefault("coverage", {})["known_findings_hit"] = sorted({k for k, _, _ in known_hits})
     ev["coverage"]["inconclusive"] = len(problems)
-    os.makedirs(os.path.join(ROOT, "evidence"), exist_ok=True)
-    with open(os.path.join(ROOT, "evidence", f"{pid}.json"), "w") as fh:
+    ev["coverage"]["counterexample_candidates"] = len(pending_cex)
+    evdir = os.environ.get("VERIF_EVIDENCE_DIR") or os.path.join(ROOT, "evidence")
+    os.makedirs(evdir, exist_ok=True)
+    with open(os.path.join(evdir, f"{pid}.json"), "w") as fh:
         json.dump(ev, fh, indent=1, default=str)
 
     seen = set()
